@@ -18,7 +18,9 @@
                                                  the first) must not forget the earlier movements;
                                                  ApplyPlacement: placement[.] of both
      pi                the router's position -> wire list over the w wires of the circuit being routed;
-                       _apply_swap((a, b), pi) exchanges the two ENTRIES whose VALUES are a and b
+                       _apply_swap((a, b), pi) exchanges the two ENTRIES whose VALUES are a and b;
+                       _apply_perm(perm, pi) (PAM routing, pre / post permutation of a block) permutes the entries AT
+                       THE POSITIONS perm
      lead              leading_swaps, the swaps since the last executed gate, undone (on pi and on the circuit) by the
                        local-minimum escape
      w, np             width of the circuit (logical qudits at first, the machine's after ApplyPlacement) and size of
@@ -148,6 +150,18 @@ RouteSwap(a, b, record) ==
   /\ nsw' = nsw + 1
   /\ UNCHANGED <<nl, w, np, phase, edges, placement, im, fm, tok0, tokS, legal, applied, steps>>
 
+\* PAMRoutingPass executed a two-qudit block in a variant that exchanges its two wires before or after the block
+\* (pre / post permutation): _apply_perm((y, x), pi) exchanges the ENTRIES AT POSITIONS x and y of pi (x, y: qudits of the
+\* circuit being routed), and the variant placed in the mapped circuit carries that swap itself, on wires pi[x], pi[y] --
+\* which are adjacent, or the block would not have been executed.  A gate was executed: leading_swaps = []
+RoutePerm(x, y) ==
+  /\ phase = "routing" /\ x # y /\ x \in 0..w - 1 /\ y \in 0..w - 1
+  /\ SubEdge(pi[x + 1], pi[y + 1])
+  /\ pi' = [pi EXCEPT ![x + 1] = pi[y + 1], ![y + 1] = pi[x + 1]]
+  /\ tok' = Exch(tok, pi[x + 1], pi[y + 1])
+  /\ lead' = <<>>
+  /\ UNCHANGED <<nl, w, np, phase, edges, placement, im, fm, nsw, tok0, tokS, legal, applied, steps>>
+
 \* a gate was executed: leading_swaps = []
 ExecGate ==
   /\ phase = "routing" /\ lead # <<>>
@@ -199,12 +213,13 @@ DoPlace == More /\ \E kind \in PlaceKinds : \E P \in [1..w -> 0..np - 1] : Place
 DoLayout == More /\ \E perm \in [1..w -> 0..w - 1] : Layout("sabre", perm)       \* the flavour leaves no trace in the state
 DoRouteStart == More /\ RouteStart("sabre")
 DoRouteSwap == \E a, b \in 0..w - 1 : \E record \in BOOLEAN : a < b /\ RouteSwap(a, b, record)
+DoRoutePerm == \E x, y \in 0..w - 1 : x < y /\ RoutePerm(x, y)
 DoExecGate == ExecGate
 DoBacktrack == Backtrack
 DoRouteEnd == RouteEnd
 DoApply == More /\ Apply
 
-Next == \/ DoSetModel \/ DoPlace \/ DoLayout \/ DoRouteStart \/ DoRouteSwap \/ DoExecGate
+Next == \/ DoSetModel \/ DoPlace \/ DoLayout \/ DoRouteStart \/ DoRouteSwap \/ DoRoutePerm \/ DoExecGate
         \/ DoBacktrack \/ DoRouteEnd \/ DoApply
 Spec == Init /\ [][Next]_vars
 \* exhaustive runs hide the pass counter: with MaxSteps out of reach the search is over workflows of EVERY length
